@@ -176,7 +176,7 @@ let run_case_inner (a : string array) : string =
     (* S is the spec's own answer; additionally the spec answer must recover t (checked by P-side flag) *)
     out m (match sc with Some c -> show_scl c ^ (if ok_rt then "" else " !roundtrip") | None -> "notwf")
       (sc <> None && inner)
-  | "hbt" ->
+  | "hbt" | "xbt" ->
     (* C14: thread the hint the way the implementation's hidden state evolves *)
     let e = get a.(1) in let t = zi a 2 in
     let m = with_model e (fun z ->
@@ -185,7 +185,7 @@ let run_case_inner (a : string array) : string =
       | Err er -> "ERR:" ^ string_of_err er) in
     let fresh = with_model e (fun z -> show_res (fun (al, _) -> show_al al) (break_time z Z0 t)) in
     out m fresh (Lazy.force e.wf && in64 t)
-  | "hmt" ->
+  | "hmt" | "xmt" ->
     let e = get a.(1) in let cs = fields_of a 2 in
     let m = with_model e (fun z ->
       match make_time z e.hint_mt cs with
